@@ -481,8 +481,16 @@ size_t varintAdaptiveDecode(const uint8_t *src, uint64_t *values,
     }
 
     case VARINT_ADAPTIVE_DICT: {
-        /* Dict encoding is self-describing, pass large buffer size */
-        decoded = varintDictDecodeInto(data, 1024 * 1024, values, maxCount);
+        /* Dict encoding is self-describing and this API has no source length:
+         * pass the largest size a dictionary encoding of at most maxCount
+         * values can have (dictionary size + up to 2^20 nine-byte entries +
+         * count + up to eight index bytes per value) instead of a fixed 1 MiB,
+         * which rejected every larger (valid) encoding */
+        size_t dictLenBound = SIZE_MAX / 2;
+        if (maxCount < (SIZE_MAX / 2 - 10 * 1024 * 1024) / 8) {
+            dictLenBound = 9 + ((size_t)1048576 * 9) + 9 + (maxCount * 8);
+        }
+        decoded = varintDictDecodeInto(data, dictLenBound, values, maxCount);
         break;
     }
 
